@@ -40,7 +40,7 @@ func kindTableOf(p *an.Prog, f *ssa.Function, depth int) *kindTable {
 	}
 	t := &kindTable{val: map[[2]int64]int64{}}
 	kindTableMemo[f] = t // (a recursive use sees ok == false)
-	if f == nil || f.Blocks == nil || depth > 3 || len(f.Params) == 0 || len(f.Params) > 2 || f.Signature.Results().Len() != 1 || !isKindOrBool(f.Signature.Results().At(0).Type()) {
+	if f == nil || f.Blocks == nil || depth > 3 || len(f.Params) == 0 || len(f.Params) > 2 || f.Signature.Results().Len() != 1 || !(isKindOrBool(f.Signature.Results().At(0).Type()) || isModuleSmallInt(p, f.Signature.Results().At(0).Type())) {
 		return t
 	}
 	for _, par := range f.Params {
@@ -90,6 +90,7 @@ func evalKindPoint(p *an.Prog, f *ssa.Function, args []int64, depth int) (int64,
 		return x, ok
 	}
 	maps := map[ssa.Value]*ssa.Global{}
+	cells := map[ssa.Value]int64{} // addresses of elements of constant package-level arrays
 	blk := f.Blocks[0]
 	var prev *ssa.BasicBlock
 	for steps := 0; steps < 400; steps++ {
@@ -139,7 +140,32 @@ func evalKindPoint(p *an.Prog, f *ssa.Function, args []int64, depth int) (int64,
 				if r {
 					env[x] = 1
 				}
+			case *ssa.IndexAddr:
+				g, isG := x.X.(*ssa.Global)
+				k, ok := get(x.Index)
+				if !isG || !ok {
+					return 0, false
+				}
+				tab, okT := constArrayOf(p, g)
+				if !okT || k < 0 || k >= tab.n {
+					return 0, false
+				}
+				cells[x] = tab.val[k] // (an element not listed in the literal is zero)
+			case *ssa.Convert:
+				// a kind converted to an integer and back (an index, a comparison with a length)
+				a, ok := get(x.X)
+				if !ok {
+					return 0, false
+				}
+				if b, isB := x.Type().Underlying().(*types.Basic); !isB || b.Info()&types.IsInteger == 0 {
+					return 0, false
+				}
+				env[x] = a
 			case *ssa.UnOp:
+				if cv, isCell := cells[x.X]; isCell && x.Op == token.MUL {
+					env[x] = cv
+					continue
+				}
 				if g, isG := x.X.(*ssa.Global); isG && x.Op == token.MUL {
 					if _, ok := constMapOf(p, g); ok {
 						maps[x] = g // a package-level table of constants, read below
@@ -290,5 +316,80 @@ func constMapOf(p *an.Prog, g *ssa.Global) (map[int64]int64, bool) {
 	}
 	delete(constMapBad, g)
 	constMapMemo[g] = tab
+	return tab, true
+}
+
+type constArray struct {
+	n   int64
+	val map[int64]int64
+}
+
+var constArrayMemo = map[*ssa.Global]*constArray{}
+
+// constArrayOf: the content of a package-level array of integers that is filled once, in the package
+// initialiser, with constants at constant indices, and that no function of the module stores into.
+func constArrayOf(p *an.Prog, g *ssa.Global) (*constArray, bool) {
+	if t, ok := constArrayMemo[g]; ok {
+		return t, t != nil
+	}
+	constArrayMemo[g] = nil
+	ptr, ok := g.Type().Underlying().(*types.Pointer)
+	if !ok {
+		return nil, false
+	}
+	arr, ok := ptr.Elem().Underlying().(*types.Array)
+	if !ok {
+		return nil, false
+	}
+	if b, isB := arr.Elem().Underlying().(*types.Basic); !isB || b.Info()&types.IsInteger == 0 {
+		return nil, false
+	}
+	tab := &constArray{n: arr.Len(), val: map[int64]int64{}}
+	okAll := true
+	scan := func(fn *ssa.Function, isInit bool) {
+		an.EachInstr(fn, func(in ssa.Instruction) {
+			for _, op := range in.Operands(nil) {
+				if *op != ssa.Value(g) {
+					continue
+				}
+				ia, isIA := in.(*ssa.IndexAddr)
+				if !isIA || ia.Referrers() == nil {
+					okAll = false // the array as a whole is copied, sliced, or its address taken
+					continue
+				}
+				for _, u := range *ia.Referrers() {
+					switch y := u.(type) {
+					case *ssa.UnOp: // a read
+					case *ssa.Store:
+						k, ok1 := an.ConstInt(ia.Index)
+						v, ok2 := an.ConstInt(y.Val)
+						if !isInit || y.Addr != ssa.Value(ia) || !ok1 || !ok2 {
+							okAll = false
+							continue
+						}
+						tab.val[k] = v
+					case *ssa.DebugRef:
+					default:
+						okAll = false
+					}
+				}
+			}
+		})
+	}
+	if g.Package() != nil {
+		if init := g.Package().Func("init"); init != nil {
+			scan(init, true)
+		}
+	}
+	for _, fn := range p.Funcs {
+		if fn.Name() == "init" && fn.Pkg == g.Package() && fn.Synthetic != "" {
+			continue
+		}
+		scan(fn, false)
+	}
+	if !okAll {
+		return nil, false
+	}
+	constArrayMemo[g] = tab
 	return tab, true
 }
